@@ -129,6 +129,10 @@ def check_diagnostic(s, err_pieces, referr, aspects):
         if k == 'eq-types' and info.get('n_mismatches', 1) > 1:
             pass    # which mismatching pair is named is traversal-dependent
         elif not re.search(pat, msg): problems.append(('message', 'type diagnostic does not name operator and operand types in order: %r' % msg[:120]))
+    if k in ('break-outside-loop', 'continue-outside-loop', 'return-outside-fn'):
+        word = k.split('-')[0].encode(); others = [w for w in (b'break', b'continue', b'return') if w != word]
+        if word not in msg or any(re.search(rb"'" + w + rb"'", msg) for w in others):
+            problems.append(('message', "the diagnostic for a stray `%s` names another construct: %r" % (word.decode(), msg[:100])))
     if k == 'type-context' and info.get('got'):
         mm = re.search(rb"got '([a-z]+)'", msg)
         if mm and mm.group(1).decode() != info['got']:
